@@ -8,6 +8,44 @@ RAN = ("validated in a scratch git worktree of /repo HEAD (/tmp/sv_<id>, removed
        "stable tests pass{extra}. Then `git -C /repo apply patch.diff`, `python -m allfedsa.cli <PID>`, `git -C /repo checkout -- .`.")
 
 SEEDS = {
+    "C01_1": dict(property="C01", summary="last-month link stored_food_start[N-1] == stored_food_end[N-2] indented under `optimization_type != 'to_animals'`",
+                  needs="round 2 only, storage between years, last month, stored food binding for feed (GBR, LUX, JPN, USA)",
+                  caught_by=[("C01", "C01.SF")], first_result="caught as written", strengthened=None),
+    "C01_2": dict(property="C01", summary="STORED_FOOD_WASTE_RETAIL taken from the crop distribution waste in Parameters.init_stored_food",
+                  needs="a waste setting other than zero with stored food switched on",
+                  caught_by=[("C01", "C01.WASTE")], first_result="caught as written", strengthened=None),
+    "C01_3": dict(property="C01", summary="month-0 seaweed pins rewritten as a loop that overwrites one dictionary key (only biofuel[0] == 0 survives)",
+                  needs="a resilient-food set containing seaweed; month 0 only",
+                  caught_by=[("C01", "C01.SW")], first_result="caught as written",
+                  strengthened="(the demonstrations of C01_1-3 audit the seaweed ledger with the pre-repair factor 1 + g; aligned with fix b92ea95 when the seeds were kept)"),
+    "C02_1": dict(property="C02", summary="intake-cap fractions cached in a class-level dict shared by every Optimizer in the process",
+                  needs="two simulations in one process whose intake_constraints differ, a resilient-food scenario and a binding cap",
+                  caught_by=[("C02", "C02.INPUTS"), ("C14", "C14.STATE")],
+                  first_result="C02: ANALYSIS-ERROR (store into a class attribute); C14: caught as written (shared-container rule)",
+                  strengthened="new rule C02.INPUTS (optimizer.py keeps no class-/module-level container its methods write, no memoised builder), run "
+                               "before the template extraction so that it is the verdict; the demonstration's restated seaweed ledger was aligned "
+                               "with the repaired ledger (fix b92ea95) when the seed was kept"),
+    "C02_2": dict(property="C02", summary="retail-waste gross-up of meat inverted to x(1 - w) in add_meat_to_model_no_storage",
+                  needs="no_stored_between_years regimes, culled meat eaten, non-zero waste, meat binding in the worst month (URY)",
+                  caught_by=[("C01", "C01.MEAT")], first_result="silent in the C02 check (the constraint set is C01's subject); caught as written by C01.MEAT",
+                  strengthened=None),
+    "C02_3": dict(property="C02", summary="get_feed_sum/get_biofuel_sum merged into one helper whose conversion table omits seaweed_biofuel (factor 1 instead of SEAWEED_KCALS)",
+                  needs="a seaweed food set, a continued-type shutoff and a country with seaweed and a surplus",
+                  caught_by=[("C02", "C02.ANIMAL"), ("C01", "C01.FB_EQ")], first_result="caught as written",
+                  strengthened="(demonstration's restated seaweed ledger aligned with fix b92ea95 when the seed was kept)"),
+    "C08_1": dict(property="C08", summary="alter_scenario_if_known_to_fail applies its correction with scenario_option.update(...) on the caller's dictionary",
+                  needs="a multi-country run with ALB/SLV/ECU earlier in the list: later countries get all-zero feed and biofuel demand",
+                  caught_by=[("C13", "C13.NOMUT")], first_result="silent in the C08 check (each series is still the documented function of the options it "
+                  "is given); caught as written by C13.NOMUT", strengthened=None),
+    "C08_2": dict(property="C08", summary="country exceptions of the year-1 ratio refactored to `{...}.get(iso3) or sum(seasonality[:4])`: the zero overrides are swallowed",
+                  needs="JPN, PRK or KOR with a year-1 disruption ratio other than 1 (months 0-7 only)",
+                  caught_by=[("C08", "C08.Y1")], first_result="missed (the helper was an opaque atom)",
+                  strengthened="new rule C08.Y1: the helper is evaluated for every country code it mentions and for any other code; on every feasible "
+                               "path the result must be the documented piecewise function of (ratio, harvest-before-May) with harvest-before-May = the "
+                               "value the code itself states for that country; and/or now return their operand as in Python"),
+    "C08_3": dict(property="C08", summary="untouched stock buffer taken from min(end_of_month_stocks[month_before_index:]) instead of the annual minimum",
+                  needs="ratio_stocks_untouched baseline and a country whose stock minimum falls in January-March (ALB, BOL, CHL, IRN, LAO, PER, URY)",
+                  caught_by=[("C08", "C08.STOCK")], first_result="caught as written", strengthened=None),
     "C04_1": dict(property="C04", summary="tie-break floor loosened from 0.99995 to 0.9997 when food is not stored between years",
                   needs="ratio_stocks_untouched: no_stored_between_years (or baseline_no_stored_between_years); headline then sits 0.03 % below the optimum",
                   caught_by=[("C04", "C04.FLOOR")], first_result="caught as written", strengthened=None),
